@@ -4,6 +4,7 @@
 //   backupall <ty> <lo> <hi> <dflt>   -> "n_dflt n_id sum"      (dflt must lie outside [lo, hi] to be told apart)
 //   nnall     <ty> <n>                -> "lookups wrong first_wrong_x"  cell k holds k; x = k, k + 0.25, k - 0.25 (inside the axis) must return round(x)
 //   ty = i8 | u8 | i16 | u16
+#include "ambient.hpp"
 #include <covfie/core/backend/primitive/array.hpp>
 #include <covfie/core/backend/primitive/identity.hpp>
 #include <covfie/core/backend/transformer/backup.hpp>
@@ -75,6 +76,7 @@ template <typename T, typename C> std::string nnall(i64 n) {
 int main() {
   std::string line;
   while (std::getline(std::cin, line)) {
+    vf::ambient();
     std::istringstream is(line); std::string op, ty; is >> op >> ty; std::string r = "unsupported";
     if (op == "clampall") { i64 lo, hi; is >> lo >> hi; r = BY_TY(clampall, lo, hi); }
     else if (op == "backupall") { i64 lo, hi, d; is >> lo >> hi >> d; r = BY_TY(backupall, lo, hi, d); }
